@@ -482,7 +482,7 @@ impl Property for C16 {
             return Verdict::Skip("malformed-case");
         };
         let n = (n as usize).clamp(1, 8);
-        check(n, e & ((1u64 << (n * n).min(63)) - 1) | if n == 8 { e & (1 << 63) } else { 0 }, v % 10)
+        check(n, e & ((1u64 << (n * n).min(63)) - 1) | if n == 8 { e & (1 << 63) } else { 0 }, v % 11)
     }
     fn shrink_keep(&self) -> &'static [&'static str] {
         &["kind", "n", "edges", "variant"]
